@@ -246,7 +246,12 @@ func (g *G) Valid(t *spec.Type, v *spec.Val, loc Loc, depth int) any {
 		}
 		mm := map[string]any{}
 		for tries := 0; len(mm) < n && tries < 40; tries++ {
-			k := g.Valid(rt.Key.Type, rt.Key.Val, Body, depth+1)
+			// keys and elements of a map that travels in the query string are query text themselves
+			kl := Body
+			if loc == Query {
+				kl = Query
+			}
+			k := g.Valid(rt.Key.Type, rt.Key.Val, kl, depth+1)
 			ks, _ := k.(string)
 			if ks == "" {
 				continue
@@ -254,7 +259,7 @@ func (g *G) Valid(t *spec.Type, v *spec.Val, loc Loc, depth int) any {
 			if _, dup := mm[ks]; dup {
 				continue
 			}
-			e := g.Valid(rt.Elem.Type, rt.Elem.Val, Body, depth+1)
+			e := g.Valid(rt.Elem.Type, rt.Elem.Val, kl, depth+1)
 			if e == nil {
 				e = g.zero(rt.Elem.Type)
 			}
